@@ -132,6 +132,9 @@ def run(ctx):
     from .c04 import prf_is_hmac, ike_keyring_split
     prf_is_hmac(ctx, 'G3')
     ike_keyring_split(ctx, 'G3')
+    # ... and the credentials the verification compares against are the configured ones, as configured (shared with C19 B2)
+    from .c19 import auth_level
+    auth_level(ctx, 'G2')
     # ---------------------------------------------------------------- G3 generate sites
     gen_req = ctx.func('ikesa.IkeSa.generate_ike_auth_request')
     sites = [(gen_req, 'initiator', 'PayloadIDi'), (ctx.func(AUTH_REQ), 'responder', 'PayloadIDr')]
